@@ -17,7 +17,8 @@ DECLS = [D('i', 'int', default=1), D('f', 'float', default=0.5), D('b', 'bool', 
          D('one', 'sec', 0, sub=[D('z', 'int', default=1), D('zs', 'str', default='q'), D('deep', 'sec', 0, sub=[D('d', 'str', F_LIST, default=['x'])])]),
          D('kv', 'sec', F_KEYSTRVAL, sub=[]), D('nd', 'sec', F_NODEFAULT, sub=[D('w', 'str', default='w')]), D('sv', 'str', default='v', cbs='w'),
          # a hand-written declaration carrying a string default, a parsed default and a comment at once
-         D('both', 'str', default='string default', dparsed='"parsed default"', comment='declared comment')]
+         D('both', 'str', default='string default', dparsed='"parsed default"', comment='declared comment'),
+         D('ss', 'str', simple=True), D('si', 'int', simple=True)]       # "simple" options: the value lives in the application's variable
 NAMES = [d.name for d in DECLS]
 TEXT1 = ('i = 5\ns = "str"\nil = {1, 2, 3}\nsl += {"x"}\nfl = 2.5\np = obj\nfn(one, "two")\nsec a { x = 1 xs = "s" xl += {5} sub { y = 1 yl = {} } sub { } inner { q = "w" } }\n'
          'sec b { }\nsec a { x = 2 }\nuniq t { u = 1 }\none { z = 2 deep { d += {"y"} } }\nkv { alpha = "1" beta = two alpha = "3" }\nnd { w = "set" }\nnd { }\n')
@@ -57,7 +58,8 @@ def workloads(sid):
                                     'add_searchpath 0 %s' % hx('~%s%s@CWD@/spdir2' % (USER0, USER0_UP)), 'searchpath 0 %s' % hx('only2.conf'), 'tilde %s' % hx('~%s/z' % USER0)]
     W['setters'] = init + ['@OOM', 'setint 0 %s 7' % hx('i'), 'setstr 0 %s %s' % (hx('s'), hx('new')), 'setstr 0 %s %s 2' % (hx('sl'), hx('app')), 'setint 0 %s 3 2' % hx('il'),
                            'setfloat 0 %s 0x1p1' % hx('f'), 'setbool 0 %s 0' % hx('b'), 'setstr 0 %s %s' % (hx('one|zs'), hx('by path')), 'setstr 0 %s %s' % (hx('sv'), hx('validated')),
-                           'opt_setstr %s %s 0' % (optloc('s'), hx('direct'))]
+                           'opt_setstr %s %s 0' % (optloc('s'), hx('direct')), 'setstr 0 %s %s' % (hx('ss'), hx('simple one')), 'setstr 0 %s %s' % (hx('ss'), hx('simple two')),
+                           'setint 0 %s 5' % hx('si'), 'parse_buf 0 %s' % hx('ss = "from text"\nsi = 6\n')]
     W['lists'] = init + ['@OOM', 'setlist 0 %s int 3 4 5 6' % hx('il'), 'addlist 0 %s str 2 %s %s' % (hx('sl'), hx('m'), hx('n')), 'setlist 0 %s str 1 %s' % (hx('sl'), hx('only')),
                          'addlist 0 %s float 1 0x1p0' % hx('fl'), 'setlist 0 %s int 0' % hx('il')]
     W['setmulti'] = init + ['@OOM', 'setmulti 0 %s 3 %s %s %s' % (hx('il'), hx('4'), hx('5'), hx('6')), 'setmulti 0 %s 2 %s %s' % (hx('sl'), hx('p'), hx('q')),
